@@ -1,7 +1,7 @@
 //! C01 driver: executes BLTE builder programs on the real `BlteBuilder`, serialises the result with
 //! `CascFormat::build`, re-parses it with `BlteFile::parse` and decodes it with the matching key store.
 //!
-//! usage: drv_blte --programs <file|-> --out <file|-> [--random N --dump-programs <file>]
+//! usage: drv_blte --programs <file|-> --out <file|-> [--random N --dump-programs <file>] [--direct]
 //!
 //! Program: {"inline": bool, "ops": [op...]} - the last op is normally {"op":"build","table":"std"|"ext"}.
 //!   {"op":"with_compression","mode":"N|Z|4|E|F"}
@@ -156,7 +156,38 @@ fn digest(b: &[u8], inline: bool) -> Value {
     v
 }
 
-fn run_program(prog: &Value, out: &Emit) {
+/// Where events go: the watchdog runner's channel, or (--direct) straight to the file, flushed per event, so
+/// that the trace survives when the process is killed in the middle of a call (chunk size 0, see c01.py).
+trait Sink {
+    fn ev(&self, v: Value);
+    fn begin(&self, op: &Value);
+    fn zero_cs_allowed(&self) -> bool;
+}
+impl Sink for Emit {
+    fn ev(&self, v: Value) {
+        Emit::ev(self, v)
+    }
+    fn begin(&self, op: &Value) {
+        Emit::begin(self, op)
+    }
+    fn zero_cs_allowed(&self) -> bool {
+        false
+    }
+}
+struct Direct(std::cell::RefCell<Out>);
+impl Sink for Direct {
+    fn ev(&self, v: Value) {
+        let mut o = self.0.borrow_mut();
+        o.ev(&v);
+        o.flush();
+    }
+    fn begin(&self, _op: &Value) {}
+    fn zero_cs_allowed(&self) -> bool {
+        true
+    }
+}
+
+fn run_program(prog: &Value, out: &dyn Sink) {
     let ops = prog["ops"].as_array().expect("ops");
     let inline = prog.get("inline").and_then(Value::as_bool).unwrap_or(false);
     out.ev(json!({"op": "new", "inline": inline}));
@@ -168,6 +199,7 @@ fn run_program(prog: &Value, out: &Emit) {
             ks.add(TactKey::new(kn, key_of(kn)));
         }
     }
+    let zero_ok = out.zero_cs_allowed();
     let mut builder = Some(BlteBuilder::new());
     let mut content: Vec<u8> = vec![];
     let mut seq = 0u64;
@@ -200,7 +232,7 @@ fn run_program(prog: &Value, out: &Emit) {
                 ev["data"] = bytes_json(&data);
             }
             let n = op["n"].as_u64().unwrap() as usize;
-            assert!(n > 0, "driver: chunk size 0 makes compress loop forever; not executed");
+            assert!(n > 0 || zero_ok, "driver: chunk size 0 makes compress loop forever; only executed with --direct");
             let mode = mode_of(op["mode"].as_str().unwrap());
             let d2 = data.clone();
             build_and_observe(move || BlteFile::compress(&d2, n, mode).map_err(|e| e.to_string()), &data, &ks, inline, &mut ev);
@@ -221,7 +253,7 @@ fn run_program(prog: &Value, out: &Emit) {
                 "with_compression" => Ok(b.with_compression(mode_of(op["mode"].as_str().unwrap()))),
                 "with_chunk_size" => {
                     let n = op["n"].as_u64().unwrap() as usize;
-                    assert!(n > 0, "driver: chunk size 0 makes add_data loop forever; not executed");
+                    assert!(n > 0 || zero_ok, "driver: chunk size 0 makes add_data loop forever; only executed with --direct");
                     if op["checked"].as_bool().unwrap_or(false) {
                         b.with_chunk_size(n).map_err(|e| e.to_string())
                     } else {
@@ -513,7 +545,18 @@ fn main() {
             programs.push(prog);
         }
     }
-    let st = run_with_watchdog(programs, &mut out, std::time::Duration::from_secs(20), run_program);
+    if has_flag(&args, "--direct") {
+        // no watchdog thread: the caller limits memory and time of the whole process
+        let n = programs.len();
+        let sink = Direct(std::cell::RefCell::new(out));
+        for p in &programs {
+            run_program(p, &sink);
+        }
+        let events = sink.0.borrow().events;
+        eprintln!("{}", json!({"programs": n, "events": events, "hangs": 0, "skipped": 0}));
+        return;
+    }
+    let st = run_with_watchdog(programs, &mut out, std::time::Duration::from_secs(20), |p, e| run_program(p, e));
     out.flush();
     eprintln!("{}", json!({"programs": st.programs, "events": out.events, "hangs": st.hangs, "skipped": st.skipped}));
     if st.skipped > 0 {
